@@ -8,6 +8,7 @@ import (
 	"runtime"
 	"strings"
 	"sync"
+	"sync/atomic"
 	"time"
 
 	am "github.com/hashicorp/go-argmapper"
@@ -832,11 +833,15 @@ func pollute(r *rand.Rand) {
 func runC11Shapes(c *CaseCtx, r *rand.Rand) (res CaseResult) {
 	res.NonTrivial = true
 	shape := r.Intn(3)
-	switch (c.Idx / 25) % 5 {
+	switch (c.Idx / 25) % 7 {
 	case 1:
 		shape = 3
 	case 3:
 		shape = 4
+	case 5:
+		shape = 5
+	case 6:
+		shape = 6
 	}
 	res.Key = fmt.Sprintf("run-once-shape %d", shape)
 	res.obs("family.run-once-shapes", 1)
@@ -914,6 +919,84 @@ func runC11Shapes(c *CaseCtx, r *rand.Rand) (res CaseResult) {
 			if id != 701 {
 				res.violate("C11", "later-execution-observed", fmt.Sprintf("a use observed #%d, the first execution produced #701", id), det)
 				break
+			}
+		}
+	case 5:
+		// a run-once function is the receiver of Redefine -- WITH an option,
+		// and before its first execution --, then used through the derived
+		// function(s) and the original: one execution, observed by all
+		f, err := am.NewFunc(func(a T0) T1 { execs++; return T1{ID: int64(800 + execs)} }, am.FuncOnce())
+		if err != nil {
+			res.Skip = "newfunc"
+			return res
+		}
+		callee := []*am.Func{f}
+		for k := 1 + r.Intn(2); k > 0; k-- {
+			rf, err := f.Redefine(am.Named("unrelated", T5{ID: 3}))
+			if err != nil {
+				res.violate("C08", "redefine-failed-all-permitted", "Redefine of a run-once function failed: "+err.Error(), det)
+				return res
+			}
+			callee = append(callee, rf)
+		}
+		r.Shuffle(len(callee), func(i, j int) { callee[i], callee[j] = callee[j], callee[i] })
+		n := len(callee) + r.Intn(3)
+		for k := 0; k < n; k++ {
+			rr := callee[k%len(callee)].Call(am.Typed(T0{ID: int64(k + 1)}))
+			res.Evals++
+			if rr.Err() != nil || rr.Len() != 1 {
+				res.violate("C11", "later-use-fails", "a use of the run-once function failed: "+firstLine(errStr(rr.Err())), det)
+				continue
+			}
+			if id := rr.Out(0).(T1).ID; id != 801 {
+				res.violate("C11", "later-execution-observed", fmt.Sprintf("a use observed #%d, the first execution produced #801", id), det)
+			}
+		}
+		if execs != 1 {
+			res.violate("C11", "once-reexecuted", fmt.Sprintf("run-once function executed %d times over %d uses through the original and %d functions derived by Redefine", execs, n, len(callee)-1), det)
+		}
+	case 6:
+		// ONE FuncOnce() option value given to several functions (a reused
+		// Arg variable, or NewFuncList): every function has its own single
+		// execution and observes its own outputs
+		var ex [3]int
+		fns := []interface{}{
+			func(a T0) T1 { ex[0]++; return T1{ID: 10} },
+			func(a T0) T2 { ex[1]++; return T2{ID: 20} },
+			func(a T0) (T3, error) { ex[2]++; return T3{ID: 30}, nil },
+		}
+		var fl []*am.Func
+		if r.Intn(2) == 0 {
+			fl, _ = am.NewFuncList(fns, am.FuncOnce())
+		} else {
+			once := am.FuncOnce()
+			for _, fn := range fns {
+				f, err := am.NewFunc(fn, once)
+				if err == nil {
+					fl = append(fl, f)
+				}
+			}
+		}
+		if len(fl) != len(fns) {
+			res.Skip = "newfunc"
+			return res
+		}
+		want := []int64{10, 20, 30}
+		for k := 0; k < 6; k++ {
+			i := (k + c.Idx) % 3
+			rr := fl[i].Call(am.Typed(T0{ID: int64(k + 1)}))
+			res.Evals++
+			if rr.Err() != nil || rr.Len() != 1 {
+				res.violate("C11", "later-use-fails", fmt.Sprintf("function %d sharing a FuncOnce option value: Len()=%d Err()=%v", i, rr.Len(), rr.Err()), det)
+				continue
+			}
+			if id, _ := idOfIface(rr.Out(0)); id != want[i] {
+				res.violate("C11", "later-execution-observed", fmt.Sprintf("function %d returned #%d, its own (only) execution produced #%d", i, id, want[i]), det)
+			}
+		}
+		for i, e := range ex {
+			if e != 1 {
+				res.violate("C11", "once-reexecuted", fmt.Sprintf("function %d of three sharing one FuncOnce option value executed %d times over two uses", i, e), det)
 			}
 		}
 	case 4:
@@ -1251,6 +1334,7 @@ func runC15Partial(c *CaseCtx, r *rand.Rand) (res CaseResult) {
 	in, _ := am.NewValueSet([]am.Value{{Name: "x", Type: types[0]}})
 	cbErr := errors.New("callback failure")
 	failing := false
+	typedNilErr := (c.Idx/27)%3 == 1
 	built, err := am.BuildFunc(in, out, func(in, out *am.ValueSet) error {
 		for i, v := range out.Values() {
 			if setMask&(1<<uint(i)) == 0 {
@@ -1267,6 +1351,11 @@ func runC15Partial(c *CaseCtx, r *rand.Rand) (res CaseResult) {
 			}
 		}
 		if failing {
+			if typedNilErr {
+				// a typed nil pointer in the error interface IS an error
+				var tn *concErr
+				return tn
+			}
 			return cbErr
 		}
 		return nil
@@ -1362,7 +1451,19 @@ func runC15Partial(c *CaseCtx, r *rand.Rand) (res CaseResult) {
 	if p := keep.Named("a"); p != nil {
 		p.Value = mk(3, before)
 	}
-	if err := keep.FromResult(rr); err != cbErr {
+	if typedNilErr {
+		// like an ordinary function returning that value: the call fails,
+		// and a consumer of the outputs does not run
+		if rr.Err() == nil {
+			res.violate("C15", "callback-error-lost", "the callback returned a typed nil pointer as its error (a non-nil error value); the call reports success", det)
+		}
+		ran := false
+		cons, _ := am.NewFunc(func(a T3) { ran = true })
+		if r2 := cons.Call(am.Named("x", T0{ID: 3}), am.ConverterFunc(built)); r2.Err() == nil || ran {
+			res.violate("C15", "callback-error-lost", "a consumer of the built function's outputs ran although the callback returned a (typed nil) error value", det)
+		}
+		res.obs("typed_nil_callback_errors", 1)
+	} else if err := keep.FromResult(rr); err != cbErr {
 		res.violate("C15", "fromresult-error", fmt.Sprintf("FromResult of a result carrying the callback's error returned %v", err), det)
 	}
 	if p := keep.Named("a"); p != nil {
@@ -1402,15 +1503,16 @@ func runC15FromFuncSets(c *CaseCtx, r *rand.Rand) (res CaseResult) {
 		}
 	}()
 	var fn interface{}
+	var origA, origB int64
 	switch shape {
 	case 0:
-		fn = func(in *c15SetsIn) T3 { return T3{} }
+		fn = func(in *c15SetsIn) T3 { origA, origB = in.A.ID, in.B.ID; return T3{} }
 	case 1:
-		fn = func(in c15SetsIn) *c15SetsOut { return nil }
+		fn = func(in c15SetsIn) *c15SetsOut { origA, origB = in.A.ID, in.B.ID; return nil }
 	case 2:
-		fn = func(in *c15SetsIn) *c15SetsOut { return nil }
+		fn = func(in *c15SetsIn) *c15SetsOut { origA, origB = in.A.ID, in.B.ID; return nil }
 	default:
-		fn = func(in c15SetsIn) c15SetsOut { return c15SetsOut{} }
+		fn = func(in c15SetsIn) c15SetsOut { origA, origB = in.A.ID, in.B.ID; return c15SetsOut{} }
 	}
 	orig, err := am.NewFunc(fn)
 	if err != nil {
@@ -1470,6 +1572,17 @@ func runC15FromFuncSets(c *CaseCtx, r *rand.Rand) (res CaseResult) {
 			res.violate("C15", "downstream-differs", fmt.Sprintf("the consumer received #%d, the callback produced #%d", got, a*100+b), det)
 		}
 		res.obs("built_over_function_sets_calls", 1)
+	}
+	// the ordinary function whose sets the built one works on is then called
+	// itself, with type-only values: its body sees THESE values, not what the
+	// built function's calls left in the shared sets
+	origA, origB = -1, -1
+	ro := orig.Call(am.Typed(T0{ID: 91}), am.Typed(T1{ID: 92}))
+	res.Evals++
+	if ro.Err() != nil {
+		res.violate("C15", "built-call-failed", "the ordinary function failed after a built function had worked on its value sets: "+firstLine(errStr(ro.Err())), det)
+	} else if origA != 91 || origB != 92 {
+		res.violate("C15", "sets-leak-into-the-function", fmt.Sprintf("the ordinary function was executed with a=#%d b=#%d, supplied were #91 and #92 (the built function's last call had #6 and #7)", origA, origB), det)
 	}
 	res.Sample = det
 	return res
@@ -1843,6 +1956,284 @@ func runC08SameKey(c *CaseCtx, r *rand.Rand) (res CaseResult) {
 		}
 		for _, msg := range checkBinding(w, w.EventsFrom(n0), BindingOpts{AllowedCalls: map[int]bool{k: true}, MinSeq: n0, Via: declaredInputs(o.Func)}) {
 			res.violate("C01", "binding/"+bindingKind(msg), "redefined function: "+msg, d)
+		}
+	}
+	res.Sample = det
+	return res
+}
+
+type c08ErrOut struct {
+	am.Struct
+	Warn error
+	N    T1
+}
+
+// runC08ErrorOutput: an ORDINARY output of type error (an error result that is
+// not in final position, or an error-typed field of a struct result) is an
+// output like any other for the output filter: Redefine fails when the filter
+// rejects it and succeeds, with a callable result, when the filter admits it.
+func runC08ErrorOutput(c *CaseCtx, r *rand.Rand) (res CaseResult) {
+	res.NonTrivial = true
+	shape := r.Intn(3)
+	asDefault := r.Intn(3) == 0
+	if (c.Idx/37)%4 == 1 {
+		// a final result of a CONCRETE type that implements error is an
+		// ordinary output too (C17): the derived function returns it and
+		// its own final error
+		res.Key = "final-result-of-a-concrete-error-type"
+		res.obs("family.error-typed-ordinary-output", 1)
+		f, err := am.NewFunc(func(a T0) (T1, *concErr) { return T1{ID: a.ID}, nil })
+		if err != nil {
+			res.Skip = "newfunc"
+			return res
+		}
+		var rr am.Result
+		func() {
+			defer func() {
+				if p := recover(); p != nil {
+					res.violate("C06", "panic/redefine-"+crashKey(fmt.Sprint(p)), fmt.Sprintf("panicked: %v", p), map[string]interface{}{"case": res.Key})
+				}
+			}()
+			rf, err := f.Redefine()
+			if err != nil {
+				res.violate("C08", "redefine-failed-all-permitted", "Redefine without filters failed: "+err.Error(), map[string]interface{}{"case": res.Key})
+				return
+			}
+			rr = rf.Call(am.Typed(T0{ID: 8}))
+			res.Evals++
+			if rr.Err() != nil || rr.Len() != 2 {
+				res.violate("C08", "redefined-call-fails/"+classify(nil, rr.Err()), fmt.Sprintf("redefined func(T0) (T1, *concErr): Len()=%d Err()=%v", rr.Len(), rr.Err()), map[string]interface{}{"case": res.Key})
+			} else if v, ok := rr.Out(0).(T1); !ok || v.ID != 8 {
+				res.violate("C08", "results-differ", fmt.Sprintf("redefined function returned %#v, the original returns T1{8}", rr.Out(0)), map[string]interface{}{"case": res.Key})
+			}
+		}()
+		return res
+	}
+	res.Key = fmt.Sprintf("error-typed-ordinary-output shape=%d filter-as-default=%v", shape, asDefault)
+	res.obs("family.error-typed-ordinary-output", 1)
+	det := map[string]interface{}{"case": res.Key}
+	defer func() {
+		if p := recover(); p != nil {
+			res.violate("C06", "panic/redefine-"+crashKey(fmt.Sprint(p)), fmt.Sprintf("panicked: %v", p), det)
+		}
+	}()
+	warn := errors.New("a warning value")
+	var fn interface{}
+	switch shape {
+	case 0:
+		fn = func(a T0) (error, T1) { return warn, T1{ID: a.ID} }
+	case 1:
+		fn = func(a T0) (error, T1, error) { return warn, T1{ID: a.ID}, nil }
+	default:
+		fn = func(a T0) c08ErrOut { return c08ErrOut{Warn: warn, N: T1{ID: a.ID}} }
+	}
+	reject := am.FilterOutput(am.FilterType(types[1]))
+	admit := am.FilterOutput(am.FilterOr(am.FilterType(types[1]), am.FilterType(errT)))
+	mk := func(flt am.Arg) (*am.Func, error) {
+		if asDefault {
+			f, err := am.NewFunc(fn, flt)
+			if err != nil {
+				return nil, err
+			}
+			return f.Redefine()
+		}
+		f, err := am.NewFunc(fn)
+		if err != nil {
+			return nil, err
+		}
+		return f.Redefine(flt)
+	}
+	res.Evals += 2
+	if rf, err := mk(reject); err == nil && rf != nil {
+		res.violate("C08", "output-filter-ignored", "the output filter rejects the error-typed ordinary output but Redefine succeeded", det)
+	}
+	rf, err := mk(admit)
+	if err != nil || rf == nil {
+		res.violate("C08", "redefine-failed-all-permitted", fmt.Sprintf("every output is admitted by the output filter and every parameter is permitted, but Redefine failed: %v", err), det)
+		return res
+	}
+	rr := rf.Call(am.Typed(T0{ID: 6}))
+	res.Evals++
+	if rr.Err() != nil {
+		res.violate("C08", "redefined-call-fails/"+classify(nil, rr.Err()), "calling the redefined function with a value for its declared input failed: "+firstLine(errStr(rr.Err())), det)
+	}
+	res.Sample = det
+	return res
+}
+
+// runC12FreshFuncFirstUse: the FIRST uses of a freshly made function are
+// concurrent (most sharing workloads warm their functions up): several
+// goroutines, released together, Redefine it or call it without its argument.
+// Every derived function carries the name, and every refused call the error
+// text, that the same operation yields on a twin function used sequentially.
+func runC12FreshFuncFirstUse(c *CaseCtx, r *rand.Rand) (res CaseResult) {
+	res.NonTrivial = true
+	res.Key = "concurrent-first-uses-of-a-fresh-function"
+	res.obs("family.concurrent-first-uses", 1)
+	det := map[string]interface{}{"case": res.Key}
+	old := runtime.GOMAXPROCS(16)
+	defer runtime.GOMAXPROCS(old)
+	raw := func(a T0) T1 { return T1{ID: a.ID} }
+	twin, err := am.NewFunc(raw)
+	if err != nil {
+		res.Skip = "newfunc"
+		return res
+	}
+	wantName := twin.Name()
+	twinRes := twin.Call()
+	wantErr := errStr(twinRes.Err())
+	rounds, G := tierReps(c.Tier, 120, 300), 8
+	bad, first := 0, ""
+	var mu sync.Mutex
+	note := func(msg string) {
+		mu.Lock()
+		bad++
+		if first == "" {
+			first = msg
+		}
+		mu.Unlock()
+	}
+	for k := 0; k < rounds; k++ {
+		f, err := am.NewFunc(raw)
+		if err != nil {
+			break
+		}
+		start := make(chan struct{})
+		var wg sync.WaitGroup
+		for g := 0; g < G; g++ {
+			wg.Add(1)
+			go func(g int) {
+				defer wg.Done()
+				defer func() {
+					if p := recover(); p != nil {
+						note(fmt.Sprintf("panic: %v", p))
+					}
+				}()
+				<-start
+				if g%2 == 0 {
+					rf, err := f.Redefine()
+					if err != nil || rf == nil {
+						note(fmt.Sprintf("Redefine failed: %v", err))
+					} else if n := rf.Name(); n != wantName {
+						note(fmt.Sprintf("the function derived by a concurrent Redefine is named %q, sequentially %q", n, wantName))
+					}
+				} else {
+					rr := f.Call()
+					if e := errStr(rr.Err()); e != wantErr {
+						note(fmt.Sprintf("the error of a concurrent refused call reads %q, sequentially %q", firstLine(e), firstLine(wantErr)))
+					}
+				}
+			}(g)
+		}
+		close(start)
+		wg.Wait()
+		res.Evals += G
+	}
+	res.obs("concurrent_operations", int64(rounds*G))
+	if bad > 0 {
+		res.violate("C12", "concurrent-outcome-differs", fmt.Sprintf("%d of %d concurrent first uses of a fresh function returned an outcome no sequential execution returns; first: %s", bad, rounds*G, first), det)
+	}
+	res.Sample = det
+	return res
+}
+
+// runC12ManyInFlight: MANY calls are in flight at the same instant. 64
+// goroutines call one shared target through four shared converters, two of
+// them with two inputs; the innermost converter waits until every call has
+// reached it (every call then sits several resolver frames deep), then all
+// proceed. Each call returns the value derived from its own input.
+func runC12ManyInFlight(c *CaseCtx, r *rand.Rand) (res CaseResult) {
+	res.NonTrivial = true
+	res.Key = "many-calls-in-flight"
+	res.obs("family.many-calls-in-flight", 1)
+	det := map[string]interface{}{"case": res.Key}
+	old := runtime.GOMAXPROCS(16)
+	defer runtime.GOMAXPROCS(old)
+	const G = 64
+	for round := 0; round < 2; round++ {
+		var arrived int64
+		var seen sync.Map
+		all := make(chan struct{})
+		// deep sits three resolver frames below the call: the target needs
+		// T2 from outer(T4, T1), whose T4 comes from mid(T1, T5), whose T5
+		// comes from deep(T0) -- which waits for everybody
+		deep, _ := am.NewFunc(func(a T0) T5 {
+			if _, dup := seen.LoadOrStore(a.ID, true); !dup {
+				if atomic.AddInt64(&arrived, 1) == G {
+					close(all)
+				}
+			}
+			select {
+			case <-all:
+			case <-time.After(5 * time.Second):
+				// only releases the goroutines; the verdict is on the results
+			}
+			return T5{ID: a.ID}
+		})
+		inner, _ := am.NewFunc(func(a T0) T1 { return T1{ID: a.ID} })
+		mid, _ := am.NewFunc(func(b T1, f T5) T4 { return T4{ID: f.ID} })
+		outer, _ := am.NewFunc(func(e T4, b T1) T2 { return T2{ID: e.ID} })
+		target, _ := am.NewFunc(func(x T2) T3 { return T3{ID: x.ID} })
+		shared := []am.Arg{am.ConverterFunc(inner, outer), am.ConverterFunc(mid, deep)}
+		var wg sync.WaitGroup
+		var mu sync.Mutex
+		bad, first := 0, ""
+		start := make(chan struct{})
+		for g := 0; g < G; g++ {
+			wg.Add(1)
+			go func(g int) {
+				defer wg.Done()
+				defer func() {
+					if p := recover(); p != nil {
+						mu.Lock()
+						bad++
+						if first == "" {
+							first = fmt.Sprintf("panic: %v", p)
+						}
+						mu.Unlock()
+					}
+				}()
+				<-start
+				id := int64(round*1000 + g + 1)
+				var rr am.Result
+				if g%4 == 3 {
+					v, err := am.Convert(types[2], append([]am.Arg{am.Typed(T0{ID: id})}, shared...)...)
+					if got, _ := idOfIface(v); err != nil || got != id {
+						mu.Lock()
+						bad++
+						if first == "" {
+							first = fmt.Sprintf("Convert with #%d returned (%v, %v)", id, v, err)
+						}
+						mu.Unlock()
+					}
+					return
+				}
+				rr = target.Call(append([]am.Arg{am.Typed(T0{ID: id})}, shared...)...)
+				ok := rr.Err() == nil && rr.Len() == 1
+				if ok {
+					got, _ := idOfIface(rr.Out(0))
+					ok = got == id
+				}
+				if !ok {
+					mu.Lock()
+					bad++
+					if first == "" {
+						first = fmt.Sprintf("call with #%d: Len()=%d Err()=%s", id, rr.Len(), firstLine(errStr(rr.Err())))
+					}
+					mu.Unlock()
+				}
+			}(g)
+		}
+		close(start)
+		wg.Wait()
+		res.Evals += G
+		res.obs("concurrent_operations", G)
+		if n := atomic.LoadInt64(&arrived); n == G {
+			res.obs("rounds_with_all_calls_in_flight_together", 1)
+		}
+		if bad > 0 {
+			res.violate("C12", "concurrent-outcome-differs", fmt.Sprintf("%d of %d calls that were in flight together returned an outcome no sequential execution of that call returns; first: %s", bad, G, first), det)
+			break
 		}
 	}
 	res.Sample = det
